@@ -386,7 +386,7 @@ fn reverse_proxy_part(rep: &Arc<Reporter>, args: &Args) {
                             let _ = tokio::time::timeout(Duration::from_secs(60), s.read(&mut buf)).await;
                             return;
                         }
-                        let _ = s.write_all(b"HTTP/1.1 101 Switching Protocols\r\nUpgrade: websocket\r\nX-Origin: yes\r\n\r\nWELCOME").await;
+                        let _ = s.write_all(b"HTTP/1.1 101 Switching Protocols\r\nUpgrade: websocket\r\nX-Origin: yes\r\nX-Origin-Latin: r\xe9sum\xe9 \xa0\xff\r\n\r\nWELCOME").await;
                         let head_end = got.windows(4).position(|w| w == b"\r\n\r\n").unwrap() + 4;
                         let extra = got[head_end..].to_vec();
                         if !extra.is_empty() { let _ = s.write_all(&extra).await; }
@@ -572,6 +572,7 @@ fn reverse_proxy_part(rep: &Arc<Reporter>, args: &Args) {
         for (name, via, raw, must_reach, want_body) in [
             ("POST with its body in the same write as the head", Via::Direct, &b"POST /rp/submit HTTP/1.1\r\nHost: rp.test\r\nContent-Length: 11\r\n\r\nhello world"[..], true, Some(&b"hello world"[..])),
             ("path containing the mask elsewhere than at its start", Via::MainHost, &b"GET /app/rp/x HTTP/1.1\r\nHost: main.test\r\n\r\n"[..], false, None),
+            ("header values outside ASCII (obs-text) in both directions", Via::Direct, &b"GET /rp/latin HTTP/1.1\r\nHost: rp.test\r\nUpgrade: websocket\r\nConnection: Upgrade\r\nX-Client-Latin: caf\xe9 \xa0\xff\r\n\r\n"[..], true, None),
             ("path equal to the mask", Via::MainHost, &b"GET /rp HTTP/1.1\r\nHost: main.test\r\nUpgrade: websocket\r\nConnection: Upgrade\r\n\r\n"[..], true, None),
         ] {
             id += 1;
@@ -606,7 +607,15 @@ fn reverse_proxy_part(rep: &Arc<Reporter>, args: &Args) {
             let origin_saw = seen.lock().unwrap().clone();
             let origin_text = origin_saw.first().map(|b| String::from_utf8_lossy(b).to_string()).unwrap_or_default();
             let w = json!({"kind":"reverse-proxy","case":name,"origin_received":origin_text.chars().take(300).collect::<String>(),"client_received":String::from_utf8_lossy(&got).chars().take(200).collect::<String>()});
+            let contains = |hay: &[u8], needle: &[u8]| hay.windows(needle.len()).any(|x| x == needle);
             if must_reach && origin_saw.is_empty() { rep.violation(&format!("reverse-proxy request not delivered to the origin: {}", name), w); }
+            else if name.starts_with("header values outside ASCII") {
+                let at_origin = origin_saw.first().cloned().unwrap_or_default();
+                let mut w2 = w.clone(); w2["origin_received_hex"] = json!(common::hex(&at_origin[..at_origin.len().min(300)])); w2["client_received_hex"] = json!(common::hex(&got[..got.len().min(300)]));
+                if !contains(&at_origin, b": caf\xe9 \xa0\xff\r\n") { rep.violation("reverse proxy: request header value altered on its way to the origin", w2); }
+                else if !contains(&got, b": r\xe9sum\xe9 \xa0\xff\r\n") { rep.violation("reverse proxy: origin's response header value altered on its way to the client", w2); }
+                else { rep.tally("reverse proxy: header values outside ASCII relayed byte for byte in both directions", 1); }
+            }
             else if !must_reach && !origin_saw.is_empty() { rep.violation("a request whose path only contains the reverse-proxy mask (not at its start) was proxied to the origin", w); }
             else if let Some(b) = want_body { if !origin_text.ends_with(&String::from_utf8_lossy(b).to_string()) { rep.violation("request body sent together with the head did not reach the reverse-proxy origin", w); } else { rep.tally("reverse proxy: body in the same write as the head reached the origin", 1); } }
             else { rep.tally(&format!("reverse proxy: {} -> {}", name, if must_reach { "proxied" } else { "not proxied" }), 1); }
